@@ -296,22 +296,40 @@ def rule_r2(ctx: Ctx) -> int:
         ctx.ob("C12.R2", f, f.node, "is_better(a, b) == a.aggregate > b.aggregate (strict)", ok, "" if ok else why)
     ctx.floor("C12.R2", n, 1, "is_better implementations")
 
-    # single-objective aggregate polarity, under both values of the minimise flag
-    for f in prog.implementations(PROBLEM, "evaluate"):
-        fit_rets = [r for r in walk_local(f.node) if isinstance(r, ast.Return) and isinstance(r.value, ast.Call)
-                    and call_name(r.value) == "Fitness"]
-        if not fit_rets or not any(_reads_minimize(nd) for nd in walk_local(f.node)):
+    # single-objective aggregate polarity, under both values of the minimise flag: the Problem class is interpreted
+    # (__init__ then evaluate, helpers inlined) with a symbolic fitness function (same model as C13.R3 / R5)
+    from ..modelinterp import Budget, SVal, UNKNOWN
+    from .c13 import _problem_model
+    for cls in prog.subclasses(PROBLEM):
+        ev = prog.lookup_method(cls, "evaluate")
+        init = prog.lookup_method(cls, "__init__")
+        if ev is None or init is None or ev.cls is None or ev.cls.fullname == PROBLEM:
             continue
-        if "aggregate" in " ".join(norm(x) for x in walk_local(f.node) if isinstance(x, ast.Subscript)):
-            continue  # multi-objective forms are C13.R3
+        if not any(p_ in ("fitness_function", "ff") for p_ in init.params):
+            continue
+        if "aggregate_fitness" in init.params or "minimize: list" in norm(init.node)[:1500]:
+            continue   # multi-objective forms are C13.R3
         for flagval in (True, False):
             n += 1
-            res = _eval_aggregate(f, flagval)
+            res: Optional[int] = None
+            und = ""
+            try:
+                runs = _problem_model(ctx, cls, init, ev, flagval, None, {})
+            except Budget:
+                runs, und = [], "too many interpretations"
+            signs = set()
+            for trace, rv, notes in runs:
+                if any(e.kind == "raise" for e in trace):
+                    continue
+                fits = [e for e in trace if e.kind == "call" and e.name == "Fitness"]
+                agg = (fits[0].args[0] if fits[0].args else fits[0].kwargs.get("maximizing_aggregate", UNKNOWN)) if len(fits) == 1 else UNKNOWN
+                signs.add(agg.sign if isinstance(agg, SVal) and agg.tag == "f" else None)
+            res = next(iter(signs)) if len(signs) == 1 else None
             want = -1 if flagval else 1
             ok = res == want
-            ctx.ob("C12.R2", f, f.node, f"aggregate sign when minimise={flagval}", ok if res is not None else None,
-                   "" if ok else f"aggregate is {'+' if res == 1 else '-' if res == -1 else '?'}v when minimise={flagval}"
-                                 f" (expected {'-' if want < 0 else '+'}v): the best is chosen in the wrong direction",
+            ctx.ob("C12.R2", ev, ev.node, f"aggregate sign when minimise={flagval}", ok if res is not None else None,
+                   "" if ok else (und or f"aggregate is {'+' if res == 1 else '-' if res == -1 else '?'}v when minimise={flagval}"
+                                         f" (expected {'-' if want < 0 else '+'}v): the best is chosen in the wrong direction"),
                    witness={"minimise": flagval, "sign": res})
     return n
 
@@ -469,6 +487,7 @@ def rule_r4(ctx: Ctx) -> int:
         for m in ("evaluate", "evaluate_async"):
             if m in c.methods:
                 ev_methods.add(c.methods[m])
+    kth: dict[str, int] = {}
     for f in prog.functions.values():
         for call in res.calls_in(f, include_nested=False):
             if not (isinstance(call.func, ast.Attribute) and call.func.attr in ("evaluate", "evaluate_async")):
@@ -481,8 +500,9 @@ def rule_r4(ctx: Ctx) -> int:
             in_tracker = owner is not None and prog.is_subclass(owner, TRACKER)
             in_evaluator = owner is not None and prog.is_subclass(owner, EVALUATOR)
             ok = in_tracker or in_evaluator
-            arg = norm(call.args[1]) if len(call.args) > 1 else "?"
-            ctx.ob("C12.R4", f, call, f"raw evaluator call on {arg}", ok,
+            kth[f.fullname] = kth.get(f.fullname, 0) + 1
+            who = (owner.name + "." if owner is not None else "") + f.name
+            ctx.ob("C12.R4", f, call, f"{who}: call #{kth[f.fullname]} of the raw evaluator (outside a tracker)", ok,
                    "" if ok else "individuals are evaluated through the raw evaluator, bypassing the tracker: an "
                                  "individual evaluated here and dropped by the step is never compared with the best")
     ctx.floor("C12.R4", n, 3, "resolved Evaluator.evaluate call sites")
@@ -504,8 +524,10 @@ def run(ctx: Ctx) -> None:
     ctx.rule("C12.R5", "every evaluator hands every presented individual (cached or not) back to the tracker")
     impls = ctx.prog.implementations(EVALUATOR, "evaluate_async")
     ctx.floor("C12.R5", len(impls), 2, "evaluate_async implementations")
+    from .c13 import yields_verdict
     for f in impls:
-        check_yields_all(ctx, "C12.R5", f)
+        ok5, why5 = yields_verdict(ctx, f.cls, f)
+        ctx.ob("C12.R5", f, f.node, "evaluate_async yields every input individual (interpreted on ten batches)", ok5, why5)
     ctx.assumptions += [
         "recorders are informed only through ProgressTracker.evaluate (no other caller of SearchRecorder.register)",
         "floating-point NaN fitness values are outside the decided clause (comparisons with NaN are false)",
